@@ -120,3 +120,7 @@ def cases(tier, seed, ctx=None):
     for fam, val, tag in gen_c05.build(tier, seed + 3, ctx, True, 200 if tier == "quick" else 3000):
         if fam in ("srv", "srvm"):
             yield (fam, val, "tree-" + tag)
+    # a client that half-closes its side right after the request while a 12 MiB response (written and closed at once) is still on its
+    # way to it through a small window: it still receives all of it, TLS and plain alike
+    for ending in (2, 3):
+        yield ("tlsraw", [b"GET /bighuge HTTP/1.1\r\nHost: h\r\n\r\n", ending, 0, [], 1, 0, 6], "tlsraw-half-close-while-flushing")
